@@ -647,6 +647,61 @@ func mergeIsStrict(dir string) (bool, error) {
 	return false, fmt.Errorf("no (*Response).Merge in %s", dir)
 }
 
+// transportDropsFailed: in the request loop of (*conn).run, an `if err != nil { … }` statement that contains a break /
+// return occurs before the first statement that calls releaseConn.
+func transportDropsFailed(file string) (bool, error) {
+	fset := token.NewFileSet()
+	f, err := parser.ParseFile(fset, file, nil, 0)
+	if err != nil {
+		return false, err
+	}
+	for _, d := range f.Decls {
+		fd, ok := d.(*ast.FuncDecl)
+		if !ok || fd.Name.Name != "run" || recvName(fd) != "conn" || fd.Body == nil {
+			continue
+		}
+		var loop *ast.RangeStmt
+		for _, st := range fd.Body.List {
+			if r, ok := st.(*ast.RangeStmt); ok {
+				loop = r
+			}
+		}
+		if loop == nil {
+			return false, fmt.Errorf("(*conn).run: no range loop")
+		}
+		for _, st := range loop.Body.List {
+			if containsCall(st, "releaseConn") {
+				return false, nil // reached the release without having left the loop on an error
+			}
+			is, ok := st.(*ast.IfStmt)
+			if !ok {
+				continue
+			}
+			be, ok := is.Cond.(*ast.BinaryExpr)
+			if !ok || be.Op != token.NEQ || exprString(be.Y) != "nil" {
+				continue
+			}
+			leaves := false
+			ast.Inspect(is.Body, func(n ast.Node) bool {
+				switch b := n.(type) {
+				case *ast.BranchStmt:
+					leaves = leaves || b.Tok == token.BREAK
+				case *ast.ReturnStmt:
+					leaves = true
+				case *ast.FuncLit:
+					return false
+				}
+				return true
+			})
+			if leaves {
+				return true, nil
+			}
+		}
+		return false, nil
+	}
+	return false, fmt.Errorf("(*conn).run not found in transport.go")
+}
+
 func (x *clx) callOrNested(owner string, c *ast.CallExpr, closures map[string]string, locals map[string]string) (string, error) {
 	if sel, ok := c.Fun.(*ast.SelectorExpr); ok && sel.Sel.Name == "readFrom" {
 		ty, err := x.nestedType(owner, sel.X, locals)
@@ -788,7 +843,7 @@ func extractConnLegacy(repo, root string) error {
 	}
 	var b strings.Builder
 	b.WriteString("-- GENERATED by /verif/go/extract (connlegacy) from /repo/*.go — do not edit\n")
-	b.WriteString("import KafkaVerif.Model.ConnOps\nnamespace KV.Gen.ConnLegacy\nopen KV.ConnOps\n\n")
+	b.WriteString("import KafkaVerif.Model.ConnOps\nimport KafkaVerif.Model.TransportConnC17\nnamespace KV.Gen.ConnLegacy\nopen KV.ConnOps\n\n")
 	b.WriteString("-- `readFrom(r *bufio.Reader, size int)` methods\n")
 	var names []string
 	for _, ty := range requiredReadFrom {
@@ -957,6 +1012,12 @@ func extractConnLegacy(repo, root string) error {
 		fmt.Fprintf(&b, "-- conn.go ApiVersions (v0): the parse after waitResponse; error code checked after the parse: %v\n", after)
 		fmt.Fprintf(&b, "def apiVersionsParseGen : List Step := [%s]\ndef apiVersionsErrAfter : Bool := %v\n\n", t, after)
 	}
+	// transport.go (*conn).run: a failed exchange leaves the loop before releaseConn
+	tf, err := transportDropsFailed(filepath.Join(repo, "transport.go"))
+	if err != nil {
+		return fmt.Errorf("untranslated: %v", err)
+	}
+	fmt.Fprintf(&b, "/-- transport.go (*conn).run: `if err != nil { … break }` (for anything but ErrNoRecord) comes before the releaseConn call -/\ndef transportFacts : KV.TransportConn.TFacts := { dropFailed := %v }\n\n", tf)
 	// Merge methods of the split requests: the first failed part fails the call
 	b.WriteString("/-- protocol/<api>/(*Response).Merge returns the error of the first failed part from inside its loop over the results -/\n")
 	b.WriteString("def strictMerges : List (String × Bool) := [")
